@@ -383,24 +383,32 @@ func (t *transpiler) charClass(node *ast.CharClassNode) {
 
 		internalNodes = append(internalNodes, element)
 	}
+
+	// `[\H]` has no elements that can stay in the brackets,
+	// an empty `[]` must not be emitted because Go would
+	// treat the following `]` as a member of the class.
+	hasBrackets := len(nodesToSplit) == 0 || len(internalNodes) > 0
 	if len(nodesToSplit) > 0 {
-		t.Buffer.WriteString(`(?:[`)
-	} else {
+		t.Buffer.WriteString(`(?:`)
+	}
+	if hasBrackets {
 		t.Buffer.WriteRune('[')
-	}
-	if node.Negated {
-		t.Buffer.WriteRune('^')
-	}
+		if node.Negated {
+			t.Buffer.WriteRune('^')
+		}
 
-	for _, element := range internalNodes {
-		t.charClassElement(element)
-	}
+		for _, element := range internalNodes {
+			t.charClassElement(element)
+		}
 
-	t.Buffer.WriteRune(']')
+		t.Buffer.WriteRune(']')
+	}
 	t.Mode = topLevelMode
 	if len(nodesToSplit) > 0 {
-		for _, element := range nodesToSplit {
-			t.Buffer.WriteRune('|')
+		for i, element := range nodesToSplit {
+			if i > 0 || hasBrackets {
+				t.Buffer.WriteRune('|')
+			}
 			t.charClassElement(element)
 		}
 		t.Buffer.WriteRune(')')
